@@ -79,6 +79,17 @@ CHECKS = {
         'with no RPC call, spawn, table insertion or timer; a rewritten payload equals the other records byte for byte and in order (record 16 placed in the middle of the payload).',
    design='4/C13', technique='symbolic execution of the real async stack from MIR under an explicit-state scheduler with partial-order reduction; SMT decides data; native replay over a fake node',
    note=TRUST + '; invoice oracle: byte strings other than the scenario invoices do not parse; other payload records concrete.'),
+ 'C06': dict(category='model_checking',
+   text='Full stack from MIR: no task (handler or lifecycle) panics, no mpsc send blocks while the payments lock is held, no listener is answered twice, and in every quiescent state no handler is still waiting - '
+        'for 2 symbolic HTLCs, for extra HTLCs arriving while pay is in flight, with one injected RPC fault (any method, Rpc or transport error) on the fresh and on the restart path, '
+        'and for every metadata byte string of length 0..5 (quick) / 0..9 through the real TLV code.',
+   design='4/C06', technique='symbolic execution of the real async stack from MIR under an explicit-state scheduler with partial-order reduction; SMT decides data; native replay over a fake node',
+   note=TRUST + '; fairness: a retried RPC answers after at most the fault budget of consecutive errors; timers eventually fire; JSON layer outside.'),
+ 'C14': dict(category='model_checking',
+   text='Lock discipline on every path: no RPC call, timer or blocking send is started while the payments mutex is held (2 symbolic HTLCs; extra HTLCs while paying). Two payments with distinct symbolic hashes: '
+        'payment A frozen at each of its first 5 RPCs or on its timer, payment B still settles with its own preimage; every datastore key of a lifecycle names its own hash; the fee budget of B comes from B only.',
+   design='4/C14', technique='symbolic execution of the real async stack from MIR under an explicit-state scheduler with partial-order reduction; SMT decides data; native replay over a fake node',
+   note=TRUST + '; quick tier: B arrives once A is stuck (thorough: free interleaving); 1 HTLC per hash.'),
 }
 
 NOT_YET = 'harness not built yet in this session (see DESIGN.md build order); will be claimed once its check exists'
